@@ -112,6 +112,9 @@ type Day struct {
 	Date  Date
 	Notes []Note
 	Ents  []Ent
+	// Head, when set, is the heading text to render instead of Date in the log's layout
+	// (layouts with a time of day or a zone offset)
+	Head string
 }
 
 // Log is an ordered list of days (file order; dates may repeat and be unsorted).
@@ -647,7 +650,11 @@ func RenderBook(b Book, s *Style) string {
 func RenderLog(l Log, layout string, s *Style) string {
 	var sb strings.Builder
 	for _, d := range l {
-		s.record(&sb, d.Date.Format(layout), d.Notes, d.Ents)
+		head := d.Date.Format(layout)
+		if d.Head != "" {
+			head = d.Head
+		}
+		s.record(&sb, head, d.Notes, d.Ents)
 	}
 	s.filler(&sb)
 	return s.finish(&sb)
